@@ -92,8 +92,11 @@ def edge_tree_scopes(tier):
         S("tree", type="T8i64u64", mode="bfs", slots=2, cap=2, keys=I64, updates=1),
         S("tree", type="T32i64u64", mode="bfs", slots=2, cap=2, keys=I64, updates=1),
         S("tree", type="T8u8u8", mode="bfs", slots=2, cap=0, keys="0,1,255", updates=0),
-        S("tree", type="T8u32u16", mode="random", slots=255, cap=255, keys=keys(300), histories=6, length=2500, checkpoint=50),
+        S("tree", type="T8u32u16", mode="random", slots=255, cap=255, keys=keys(300), histories=6, length=2500, checkpoint=50, fresh_base=100000),
         S("tree", type="T8u8u8", mode="random", slots=255, cap=255, keys=keys(256), histories=6, length=2500, checkpoint=50, fill=0),
+        S("tree", type="T8u32u16", mode="random", slots=254, cap=254, keys=keys(300), histories=3, length=1500, checkpoint=50, fresh_base=100000),
+        S("tree", type="T8u8u8", mode="bfs", slots=1, cap=1, max_slots=3, keys=keys(4), updates=0),
+        S("tree", type="T32u8u8", mode="bfs", slots=2, cap=2, max_slots=3, keys=keys(4), updates=0),
     ]
     if tier == "thorough":
         q += [
@@ -188,8 +191,9 @@ def edge_other_scopes(tier):
         S("aset", type="A8u8", mode="bfs", slots=1, vals="0,1,255"),
         S("aset", type="A16u32", mode="bfs", slots=2, vals="0,1,4294967295"),
         S("aset", type="A64u64", mode="bfs", slots=2, vals="0,1,18446744073709551615"),
-        S("aset", type="A8u16", mode="random", slots=300, vals=keys(400), histories=4, length=2500, checkpoint=50),
-        S("aset", type="A8u64", mode="random", slots=256, vals=keys(400), histories=4, length=2500, checkpoint=50),
+        S("aset", type="A8u16", mode="random", slots=300, vals=keys(400), histories=4, length=2500, checkpoint=50, fresh_base=1000),
+        S("aset", type="A8u64", mode="random", slots=256, vals=keys(400), histories=4, length=2500, checkpoint=50, fresh_base=1000),
+        S("aset", type="A8u16", mode="random", slots=255, vals=keys(400), histories=2, length=1500, checkpoint=50, fresh_base=1000),
     ]
 
 
